@@ -125,8 +125,10 @@ static void load_signals(int Fs,int ch){
    if (sb_fs==Fs && sb_ch==ch) return;
    SBN = (long)Fs*9/10; n=SBN*ch;                         /* 0.9 s: 7 frames of 120 ms plus slack */
    for(k=0;k<NFAM_ALL;k++){ free(SB[k].s16); free(SB[k].s24); free(SB[k].f); SB[k].s16=NULL; SB[k].s24=NULL; SB[k].f=NULL; }
-   for(k=0;k<NFAMS;k++){
-      int fam=FAMS[k]; sigbuf *b=&SB[fam];
+   for(k=0;k<NFAM_ALL;k++){
+      int fam=k,used=(fam==SIG_NOISE||fam==SIG_SQUARE||fam==SIG_SPEECH),q; sigbuf *b=&SB[fam];   /* the sweeps always use noise/square/speech */
+      for(q=0;q<NFAMS;q++) if(FAMS[q]==fam) used=1;
+      if (!used) continue;
       b->f=malloc(n*sizeof(float));
       if (fam<SIG_NFAM){
          siggen g; b->s16=malloc(n*sizeof(short)); b->s24=malloc(n*sizeof(opus_int32));
@@ -557,9 +559,9 @@ int main(int argc,char **argv){
    else { fprintf(stderr,"unknown mode\n"); return 2; }
    {
       mc_ctr *st=mc_counter("states"),*ev=mc_counter("evaluations"),*dn=mc_counter("distinct_nontrivial"),*mm=NULL,*mr=NULL;
-      if (strcmp(mode,"ms")){ mm=mc_counter("min_packets_per_base_and_tree_decoder"); mr=mc_counter("min_packets_per_base_and_ref_decoder"); }
+      if (strcmp(mode,"ms")&&strcmp(mode,"sweep")){ mm=mc_counter("min_packets_per_base_and_tree_decoder"); mr=mc_counter("min_packets_per_base_and_ref_decoder"); }
       *st=mc_set_count(S_states); *ev=*c_trans+*c_dec; *dn=mc_set_count(S_obs);
-      if (strcmp(mode,"ms")){ long lo=-1,lor=-1; int b,d; for(b=0;b<30;b++) for(d=0;d<20;d++){ long x=MEET[b*20+d]; if(d<10){ if(lo<0||x<lo) lo=x; } else { if(lor<0||x<lor) lor=x; } } *mm=lo; *mr=lor; }
+      if (mm){ long lo=-1,lor=-1; int b,d; for(b=0;b<30;b++) for(d=0;d<20;d++){ long x=MEET[b*20+d]; if(d<10){ if(lo<0||x<lo) lo=x; } else { if(lor<0||x<lor) lor=x; } } *mm=lo; *mr=lor; }
    }
    return mc_finish();
 }
